@@ -126,6 +126,9 @@ def gen_scenario(rng: random.Random, focus: str = "any") -> dict:
             sc["save_condition"] = [False] * rng.randint(2, 8) + [True, False, False, True]
     if focus == "C02" and rng.random() < 0.15:
         sc["interrupt_at"] = rng.randint(5, 120)
+    if focus in ("C02", "C03", "C09") and rng.random() < 0.06:
+        # an interrupt while launch() is still starting the threads
+        sc["boot_interrupt"] = rng.choice(["inference", "training", "webapi"])
     if focus == "C02" and rng.random() < 0.15 and sc["timed"]:
         sc["max_uptime"] = rng.choice([3.0, 10.0])
         sc["client"] = [c for c in sc["client"] if c[0] != "POST!"]
